@@ -53,10 +53,12 @@ def gen_comb_cases(r, count):
     for n in (0, 1, 2, 11, 12, 98, 99, 100, 101):
         for k in (0, 1, 2, 10, 11, 12, 13):
             cases.add((n, k))
-    while len(cases) < count:
+    for _attempt in range(count * 3):
+        if len(cases) >= count:
+            break
         mode = r.random()
         if mode < 0.3:
-            n = r.randint(0, 130); k = r.randint(0, 16)
+            n = r.randint(0, 300); k = r.randint(0, 30)
         elif mode < 0.6:
             # k > n / 2 region with representable result
             n = r.randint(20, 400); k = n - r.randint(0, 8)
